@@ -200,6 +200,23 @@ Fixpoint drift_cum (ts : list txop) (oks : list bool) (created : list (N * (ptyp
   | _, _ => []
   end.
 
+(* the recorded votes of an observed proposal, and the verdict of the model's exact tally on them *)
+Definition obs_votes (p : pobs) : list vote :=
+  flat_map (fun x : N * (Z * Z) =>
+              let '(i, (pw, o)) := x in
+              if pw <? 0 then [] else [mkVote i pw (if o =? 1 then OpYes else if o =? 2 then OpNo else if o =? 3 then OpGiveup else OpUnknown)])
+           (zip (idx (length (ob_votes p))) (ob_votes p)).
+Definition verdict_ok (p : pobs) : bool :=
+  match obs_votes p with
+  | [] => true
+  | vs =>
+      let r := tally vs (ob_pass p) in
+      if (ob_stores p =? 1) && (ob_status p =? 1) then bool_decide (r = RTBD)
+      else if ob_stores p =? 2 then bool_decide (r = RPassed)
+      else if (ob_stores p =? 4) && (ob_outcome p =? 3) then bool_decide (r = RFailed)
+      else true
+  end.
+
 Definition has_survivors (p : pobs) : bool := existsb (fun v => 0 <=? v) (ob_indiv p).
 
 (* violations on one proposal between two consecutive block-end observations [a] (before) and [b];
@@ -208,6 +225,9 @@ Definition has_survivors (p : pobs) : bool := existsb (fun v => 0 <=? v) (ob_ind
    6 snapshot power / validator set of the votes changed  7 passed store without completedYes / finalized with funds left
    8 deadline, goal, type, proposer or pass percentage changed (deadline may be set when voting starts)
    10 funder records survive the distribution
+   18 the stage does not follow the recorded votes (exact tally under the proposal's own percentage): voting although they
+      already pass / make a pass impossible, passed store without passing votes, voted-down without failing votes
+   19 expired (insufficientVotes) with the goal reached: the funds are neither refunded nor distributed
    13 still in the funding stage although the recorded total has reached the recorded goal
    11 declared insufficientFunds although the goal was met or the funding deadline had not passed *)
 Definition prop_viol (h : Z) (a b : option pobs) : list Z :=
@@ -219,6 +239,7 @@ Definition prop_viol (h : Z) (a b : option pobs) : list Z :=
       (if (ob_total pb =? indiv_sum pb) || (8 <=? ob_stores pb) then [] else [3]) ++
       (if (ob_stores pb =? 1) && (ob_status pb =? 1) && (ob_total pb <? ob_goal pb) then [4] else []) ++
       (if (ob_stores pb =? 1) && (ob_status pb =? 0) && (ob_goal pb <=? ob_total pb) then [13] else []) ++
+      (if verdict_ok pb then [] else [18]) ++
       (if (ob_stores pb =? 2) && negb (ob_outcome pb =? 5) then [7] else []) ++
       (if (8 <=? ob_stores pb) && (ob_stores pb <? 16) && negb (ob_total pb =? 0) then [7] else []) ++
       (if (ob_stores pb =? 8) && has_survivors pb && negb (rank_obs a =? 4) then [10] else []) ++
@@ -227,6 +248,8 @@ Definition prop_viol (h : Z) (a b : option pobs) : list Z :=
       | Some pa =>
           (if (ob_outcome pb =? 2) && negb (ob_outcome pa =? 2) &&
               negb ((ob_stores pa =? 1) && (ob_status pa =? 1) && (ob_vdl pa <? h)) then [5] else []) ++
+          (if (ob_stores pb =? 4) && (ob_outcome pb =? 2) && (ob_stores pa =? 4) && (ob_outcome pa =? 2) &&
+              (0 <? ob_total pb) && (ob_goal pb <=? ob_total pb) then [19] else []) ++
           (if (ob_status pa =? 0) || bool_decide (map fst (ob_votes pa) = map fst (ob_votes pb)) then [] else [6]) ++
           (if (ob_outcome pb =? 1) && negb (ob_outcome pa =? 1) &&
               ((ob_goal pa <=? ob_total pa) || (h <=? ob_fdl pa)) then [11] else []) ++
@@ -259,7 +282,8 @@ Fixpoint newly_finalized (a b : list (option pobs)) : Z :=
 (* class of a violation: all former classes (1 public_expire_votes, 2 stale_fund_records, 3 negative_fund_amount,
    4 pass_percentage_drift) belonged to findings repaired in /repo (0988205, 9dda72d, 782c385 / 19a3caa, 23f7d29):
    every monitor hit is now unexplained (class 0) *)
-Definition classify (code : Z) (i : Z) (bi : binfo) (neg drift : list N) (nfin : Z) (pa pb : option pobs) : Z := 0.
+Definition classify (code : Z) (i : Z) (bi : binfo) (neg drift : list N) (nfin : Z) (pa pb : option pobs) : Z :=
+  if code =? 19 then 5 else 0.   (* 5 = C14.expired_never_finalised (known) *)
 
 Fixpoint props_viol (bi : Z) (h : Z) (i : Z) (info : binfo) (neg drift : list N) (nfin : Z) (a b : list (option pobs)) : list Z :=
   match b with
